@@ -81,6 +81,16 @@ func (p *Prog) keyLeaves(v ssa.Value, depth int) []ssa.Value {
 		if b, ok := x.Call.Value.(*ssa.Builtin); ok && b.Name() == "append" && len(x.Call.Args) == 2 {
 			return append(p.keyLeaves(x.Call.Args[0], depth+1), p.keyLeaves(x.Call.Args[1], depth+1)...)
 		}
+		switch p.calleeName(&x.Call) {
+		case "strconv.Itoa", "strconv.FormatInt", "strconv.FormatUint":
+			// the decimal text of a length: the piece is that length
+			if len(x.Call.Args) > 0 {
+				if lv := stripConv(x.Call.Args[0]); lenOf(lv) != nil {
+					return []ssa.Value{lv}
+				}
+			}
+			return []ssa.Value{x}
+		}
 		if p.calleeName(&x.Call) == "fmt.Sprintf" {
 			f, ok := constString(x.Call.Args[0])
 			if !ok {
